@@ -2,6 +2,8 @@ import Hertz.Proofs.Tagexpr
 import Hertz.Proofs.TagexprEval
 import Hertz.Proofs.TagexprNoPanic
 import Hertz.Model.Tagexpr
+import Hertz.Model.TagexprShared
+import Hertz.Proofs.TagexprShared
 import Hertz.Gen.Prio
 /-!
 # C20 — validation expressions follow the documented operator precedence
@@ -340,6 +342,96 @@ theorem parser_outcomes (expr : List Char) :
 example : (match parseExpr ['1', ' ', '+', ' ', '2'], parseExpr ['1', ' ', '+', ' ', ')'], parseExpr ['$', '[', '0', ']'] with
     | .ok _, .error .syntax, .error (.unsupported _) => true | _, _, _ => false) = true := by decide
 
+/-! ## one compiled expression, many values: sequences, caches, concurrent evaluations
+
+The binder compiles the expression of a struct type once (`tagexpr.VM`, keyed by the type) and every
+later validation of that type, from whichever request goroutine, evaluates the same compiled tree.
+The property speaks of one value and one expression; these theorems say that nothing else enters. -/
+
+/-- **verdict_independent_of_batch.**  Compiling once and evaluating for many values gives every
+value the verdict it gets alone: no value's verdict depends on which other values of the type are
+validated, or in which order. -/
+theorem verdict_independent_of_batch (expr : List Char) (envs : List Env) :
+    validateShared expr envs = envs.map (validate expr) :=
+  validateShared_eq expr envs
+
+/-- non-vacuity: `in($,'a','b')` on `"a"`, `"z"`, `"b"` - accepted, rejected, accepted -/
+example : (validateShared ['i', 'n', '(', '$', ',', '\'', 'a', '\'', ',', '\'', 'b', '\'', ')']
+      [{ cur := "A", fields := [("A", .str "a")] }, { cur := "A", fields := [("A", .str "z")] },
+       { cur := "A", fields := [("A", .str "b")] }]).map
+    (fun r => match r.1 with | .accept => 1 | .reject => 2 | _ => 0) = [1, 2, 1] := by decide
+
+/-- **verdict_independent_of_history.**  Through the validator's per-type cache: whatever sequence of
+values of whatever struct types has been validated before on the same validator, each `Validate`
+answers what a fresh compilation of that type's expression answers for that value. -/
+theorem verdict_independent_of_history (exprOf : Nat → List Char) (steps : List (Nat × Env)) :
+    session exprOf [] steps = steps.map (fun s => validate (exprOf s.1) s.2) :=
+  session_eq exprOf steps [] (Cache.sound_nil exprOf)
+
+/-- non-vacuity: two types (`$=='a'`, `len($)==len('')`), four validations, hits and misses -/
+example : (session (fun ty => if ty == 0 then ['$', '=', '=', '\'', 'a', '\''] else ['$', '=', '=', '\'', '\''])
+      [] [(0, { cur := "A", fields := [("A", .str "a")] }), (1, { cur := "A", fields := [("A", .str "a")] }),
+          (0, { cur := "A", fields := [("A", .str "")] }), (1, { cur := "A", fields := [("A", .str "")] })]).map
+    (fun r => match r.1 with | .accept => 1 | .reject => 2 | _ => 0) = [1, 2, 2, 1] := by decide
+
+/-- `Func.step` follows `(*funcExprNode).Run` as it is written now: the argument buffer is a local of
+`Run`, allocated by that call (`make` inside the body), filled argument by argument, then handed to
+the function body; and the compiled node, which all evaluations of the struct type share, has no
+field other than the parsed arguments, the function and the two prefix flags - nothing an
+evaluation could leave behind in it. -/
+theorem func_run_source_matches_gen :
+    Gen.Prio.funcNodeFields = ["exprBackground", "args []ExprNode", "fn func(...interface{}) interface{}",
+      "boolOpposite *bool", "signOpposite *bool"] ∧
+    Gen.Prio.funcRunBody = "{ var args []interface{} if n := len(f.args); n > 0 { args = make([]interface{}, n) for k, v := range f.args { args[k] = v.Run(ctx, currField, tagExpr) } } return realValue(f.fn(args...), f.boolOpposite, f.signOpposite) }" :=
+  ⟨rfl, rfl⟩
+
+/-- **func_eval_schedule_independent.**  `funcExprNode.Run` (behind `len`, `in` and every registered
+function) taken in the steps the Go code takes - a fresh argument buffer, one argument per step, then
+the function body - and executed for several values at once on the same node under ANY schedule:
+an evaluation that has a result has the result of the undisturbed evaluation of its own value. -/
+theorem func_eval_schedule_independent (name : String) (args : List Operand) (bo so : Option Bool)
+    (envs : List Env) (sched : List Nat) (i : Nat) (env : Env) (t : Func.Thread (EvalM Val) (EvalM Val)) (r : EvalM Val)
+    (h : (Func.run (args.map (fun (a : Operand) => a.run)) (funcBody name bo so) (Func.start envs) sched)[i]? = some (env, t))
+    (hr : t.res = some r) :
+    envs[i]? = some env ∧ r = (funcNode name args bo so).run env := by
+  have := Func.run_private _ _ envs sched i env t r h hr
+  exact ⟨this.1, by rw [funcNode_run_eq_seq]; exact this.2⟩
+
+/-- … and every evaluation gets there once it has been given one step per argument and one more. -/
+theorem func_eval_completes (name : String) (args : List Operand) (bo so : Option Bool)
+    (envs : List Env) (sched : List Nat) (i : Nat) (env : Env) (he : envs[i]? = some env)
+    (hc : args.length < sched.count i) :
+    ((Func.run (args.map (fun (a : Operand) => a.run)) (funcBody name bo so) (Func.start envs) sched)[i]?).bind (fun p => p.2.res)
+      = some ((funcNode name args bo so).run env) := by
+  have := Func.run_completes (args.map (fun (a : Operand) => a.run)) (funcBody name bo so) envs sched i env he
+    (by simpa using hc)
+  rw [this, funcNode_run_eq_seq]
+  rfl
+
+/-- non-vacuity: `in($,'a','b')` for `"a"` and `"z"`, the second evaluation running entirely inside
+the first one: both finish with their own answer -/
+example : ((Func.run ([selectorNode "" none none, constNode "s" (.str "a"), constNode "s" (.str "b")].map (fun (a : Operand) => a.run))
+      (funcBody "in" none none)
+      (Func.start [{ cur := "A", fields := [("A", .str "a")] }, { cur := "A", fields := [("A", .str "z")] }])
+      [0, 0, 1, 1, 1, 1, 0, 0]).map
+    (fun p => match p.2.res with | some (.ok (.bool true)) => 1 | some (.ok (.bool false)) => 2 | _ => 0)) = [1, 2] := by decide
+
+/-- The hypothesis that matters is that the argument buffer belongs to the evaluation.  With one
+buffer owned by the node (allocated when the expression is compiled, i.e. shared by all
+evaluations of the cached tree) the statement is false: on the same schedule the evaluation of
+`in(x,1,2)` for `x = 1` answers for the other evaluation's `x = 9`. -/
+theorem node_owned_buffer_fails_at :
+    ¬ (∀ sched : List Nat,
+        ∀ p ∈ (Func.runShared Func.demoArgs Func.demoIn { buf := [0, 0, 0], ts := [(1, {}), (9, {})] } sched).ts,
+          ∀ r, p.2.res = some r → r = Func.seq Func.demoArgs Func.demoIn p.1) := by
+  intro h
+  have h1 := Func.runShared_fails_at
+  have hm : (1, ({ pc := 3, res := some false } : Func.SThread Bool)) ∈
+      (Func.runShared Func.demoArgs Func.demoIn { buf := [0, 0, 0], ts := [(1, {}), (9, {})] } Func.demoSched).ts := by decide
+  have := h Func.demoSched _ hm false rfl
+  rw [h1.2] at this
+  cases this
+
 /-
 TODO-OPEN
   Closed in this round: `validate_no_panic` (both halves: `validate_no_panic` for every expression,
@@ -356,6 +448,12 @@ TODO-OPEN
   * The token sequence in `parse_eq_spec_expr` is the one `parseExprNode` itself read (`flat` of the
     chain it returned); that the lexer's cut points are the documented ones (delimiter sets of the
     operand regexps) is compared with the real code on every case, not specified independently.
+  * Concurrent evaluation of the shared compiled tree is modelled in steps for function-call nodes only
+    (`Func.run`); operator, group, selector and regexp nodes are atomic and stateless in the model, and
+    `tagexpr.VM`'s locking around the per-type cache is not modelled (`session` is sequential).  That those
+    nodes keep no per-evaluation state is checked by the interleaved (`vdm step`, scheduling points
+    `vdpt()`/`vdid(…)`) and parallel (`vdm par`/`cold`) runs against the real code, not proved; only
+    `funcExprNode` is pinned to the source (`func_run_source_matches_gen`).
   * float64 arithmetic, `strconv`/`fmt` conversions and `regexp` stay compared, not proved (`Float` is
     opaque to the kernel); constructs outside the modelled subset (`$[…]` sub-selectors, `#` range
     keys, `sprintf`/`range`/`mblen`) answer `unsupported` and are not covered by any theorem here.
